@@ -190,3 +190,12 @@ k("compute-called-directly-redundant", ["C14"], T + "aggregate.py", "        ret
 k("compute-called-directly-checked-members", ["C14"], T + "stack.py", "        results = [transform(input) for transform in self.transforms]", "        results = [transform._compute(input) for transform in self.transforms]",
   "Stack.__init__ rejects members whose required keys differ from its own")
 k("private-names-renamed", ALL, "*", "", "", "every private function, method and class of the package renamed at its definition and at every reference (names given by the property anchors excepted)", transform="rename-private")
+
+# GradDrop written as one tensor expression (see seeded_keep/C18-r5K4) and two broken twins of that form
+_GD_LOOP = "        for i in range(len(matrix)):\n            M_i = (fP > U) * (matrix[i] > 0) + (fP < U) * (matrix[i] < 0)\n            vector += (leak[i] + (1 - leak[i]) * M_i) * matrix[i]\n"
+_GD_VEC = "        M = (fP > U) * (matrix > 0) + (fP < U) * (matrix < 0)\n        row_leak = leak.unsqueeze(1)\n        vector += ((row_leak + (1 - row_leak) * M) * matrix).sum(dim=0)\n"
+k("graddrop-vectorised", ["C18", "C10", "C11"], A + "graddrop.py", _GD_LOOP, _GD_VEC)
+b("graddrop-vectorised-leak-along-columns", ["C18"], A + "graddrop.py", _GD_LOOP, _GD_VEC.replace("leak.unsqueeze(1)", "leak.unsqueeze(0)"),
+  "the leak vector is broadcast along the rows: entry (i, j) is leaked with leak_j (and the shapes only agree for square matrices)")
+b("graddrop-vectorised-kept-entries-leaked", ["C18"], A + "graddrop.py", _GD_LOOP, _GD_VEC.replace("(row_leak + (1 - row_leak) * M)", "(row_leak + (1 - row_leak) * M * row_leak)"),
+  "kept entries weigh leak_i + (1 - leak_i)·leak_i instead of 1")
